@@ -62,6 +62,8 @@ pub enum T {
     Nil,
     Cons(Box<T>, Box<T>),
     Cmp(Tag, Vec<T>),
+    /// the anonymous variable `_` of the surface syntax: every occurrence is a new variable
+    W,
 }
 
 impl T {
@@ -87,7 +89,7 @@ impl T {
     }
     pub fn is_ground(&self) -> bool {
         match self {
-            T::V(_) | T::A(_) => false,
+            T::V(_) | T::A(_) | T::W => false,
             T::Cons(h, t) => h.is_ground() && t.is_ground(),
             T::Cmp(_, fs) => fs.iter().all(|f| f.is_ground()),
             _ => true,
@@ -232,6 +234,7 @@ impl fmt::Display for T {
         match self {
             T::V(i) => write!(f, "{}", var_name(*i)),
             T::A(i) => write!(f, "_.{}", i),
+            T::W => write!(f, "_"),
             T::I(n) => write!(f, "{}", n),
             T::B(b) => write!(f, "{}", b),
             T::C(c) => write!(f, "{:?}", c),
@@ -384,6 +387,25 @@ impl Rel {
     }
 }
 
+#[derive(Clone, Copy, PartialEq, Eq, Hash, PartialOrd, Ord, Debug)]
+pub enum MatchKind {
+    Match,
+    Matche,
+    Matcha,
+    Matchu,
+}
+
+impl MatchKind {
+    pub fn name(self) -> &'static str {
+        match self {
+            MatchKind::Match => "match",
+            MatchKind::Matche => "matche",
+            MatchKind::Matcha => "matcha",
+            MatchKind::Matchu => "matchu",
+        }
+    }
+}
+
 /// Goals. `Conde`'s arms are conjunctions. `Fresh` introduces the listed variable indices.
 #[derive(Clone, PartialEq, Eq, Hash, PartialOrd, Ord, Debug)]
 pub enum G {
@@ -416,6 +438,10 @@ pub enum G {
     ForList(u32, Vec<T>, Vec<G>),
     /// project |vars| { body }
     Project(Vec<u32>, Vec<G>),
+    /// pattern matching: kind, matched term, arms (alternative patterns, body)
+    Match(MatchKind, T, Vec<(Vec<T>, Vec<G>)>),
+    /// call of a user relation defined in the surface crate (see `surface::USER_RELS`)
+    Call(String, Vec<T>),
     /// harness fngoal: succeeds iff the (walked) term is a ground number list summing to n etc.
     Probe(u32),
 }
@@ -494,6 +520,19 @@ impl fmt::Display for G {
                 vs.iter().map(|v| var_name(*v)).collect::<Vec<_>>().join(", "),
                 join(gs, ", ")
             ),
+            G::Match(kind, t, arms) => {
+                write!(f, "{} {} {{ ", kind.name(), t)?;
+                for (pats, body) in arms {
+                    write!(f, "{} => ", join(pats, " | "))?;
+                    match body.len() {
+                        0 => write!(f, ", ")?,
+                        1 => write!(f, "{}, ", body[0])?,
+                        _ => write!(f, "{{ {} }}, ", join(body, ", "))?,
+                    }
+                }
+                write!(f, "}}")
+            }
+            G::Call(name, args) => write!(f, "{}({})", name, join(args, ", ")),
             G::Probe(k) => write!(f, "probe#{}", k),
         }
     }
